@@ -556,12 +556,9 @@ class StateManager:
         n_dim = state_dict.get("n_dim", 1)
         instance = cls(n_dim)
 
-        if "_current" in state_dict:
-            instance._current.update(state_dict["_current"])
-        if "_history" in state_dict:
-            instance._history.update(state_dict["_history"])
-
-        instance._invalidate_cache()
+        instance.update_from_dict(
+            {k: v for k, v in state_dict.items() if k in ("_current", "_history")}
+        )
         return instance
 
     def update_from_dict(self, state_dict: dict):
@@ -587,9 +584,16 @@ class StateManager:
         0.5
         """
         if "_current" in state_dict:
-            self._current.update(state_dict["_current"])
+            self._current.update(
+                {k: self._ensure_copy(v) for k, v in state_dict["_current"].items()}
+            )
         if "_history" in state_dict:
-            self._history.update(state_dict["_history"])
+            self._history.update(
+                {
+                    k: [self._ensure_copy(x) for x in v]
+                    for k, v in state_dict["_history"].items()
+                }
+            )
         if "n_dim" in state_dict:
             self.n_dim = state_dict["n_dim"]
 
